@@ -346,7 +346,8 @@ func (e *Environment) noteRebind(name string, val Object) {
 	if !ok {
 		return
 	}
-	if old.Type() == FUNC || (val != nil && val.Type() == FUNC) {
+	if old.Type() == FUNC || (val != nil && val.Type() == FUNC) || (val == nil && Constant(name)) {
+		// (a deleted constant can be re-bound to another value: same staleness issue)
 		e.funcGen++
 	}
 }
